@@ -3,30 +3,42 @@
 PROP = {'modules': ['AmVerif.Props.C12'],
  'engines': [{'name': 'watch', 'quick': 120, 'thorough': 1500}],
  'rule': 'cases 0-5: one per notification kind (create, modify, rename, delete, any, access), every valid entry up to depth 3 (root, dir, file with '
-         '/ without extension, non-ASCII) spelled plainly and with three `.` / `zz/..` detour patterns; case 6: three roots (disjoint, nested, '
-         'dotted name) x all kinds x depth<=2; case 7: raw id_of_path / events over 12 not-expressible names (dotted, hidden, non-UTF-8, `..`) as '
-         'inner and last component, paths at / above / beside the root, relative and literal roots; case 8: path_of over valid and odd ids and back; '
-         'case 9: disconnected channel; later cases random mixes (60% scenarios, raw events, raw ids, path_of, Err events, receiver drop); thorough: '
-         'every 8th case is a real create/modify/rename/delete history under the real FsWatcherBuilder with sentinel barriers. A case is non-trivial '
-         'when it ran at least one id_of_path / event / path_of; distinct = distinct op transcripts',
- 'assumptions': ['std::path parses a path into the component list the harness reports; Normal components are never empty, `.` or `..`',
+         '/ without extension, non-ASCII) spelled plainly and with three `.` / `zz/..` detour patterns (deletions carry RemoveKind::File / Folder '
+         'after the kind of the entry); case 6: three roots (disjoint, nested, dotted name) x all kinds x depth<=2; case 7: raw id_of_path / events '
+         'over 12 not-expressible names (dotted, hidden, trailing dot, non-UTF-8, `..`) as inner and last component, paths at / above / beside the '
+         'root, relative and literal roots, all 8 raw kinds incl. Remove(Any); case 8: path_of over valid and odd ids and back; case 9: '
+         'disconnected channel; later cases random mixes (60% scenarios, raw events, raw ids, path_of, Err events, receiver drop); thorough: every '
+         '8th case is a real create/modify/rename/delete history under the real FsWatcherBuilder with sentinel barriers. A case is non-trivial when '
+         'it ran at least one id_of_path / event / path_of; distinct = distinct op transcripts',
+ 'assumptions': ['std::path parses a path into the component list the harness reports; Normal components are never empty, `.` or `..`, and contain '
+                 'no separator',
                  'ids and extensions contain no path separator or NUL (path_of_entry is not modelled otherwise)',
+                 'a deletion notification tells what was deleted (RemoveKind::File / Folder, as inotify and FSEvents do); an untyped Remove(Any) '
+                 'names the entry as the file system shows it — gone, hence as a file — and its parent (C12_batch_exact)',
+                 'a notification is consistent with the file system: the parent of a notified path is a directory (the oracle does not judge the kind '
+                 'of the parent for raw events about paths below a regular file)',
                  'inotify delivers events in the order the operations happened (sentinel technique, real-watcher cases only)'],
  'trusted': COMMON_TRUSTED + ['modelled, not verified: std::path::Path::components() (the harness tokenises every path with it; parent / strip_prefix / file_name / file_stem / '
  'extension / == are re-implemented on component lists in the model), notify (event delivery; events are synthesised except in the real-watcher '
  'cases), the OS file system (is_dir is a parameter of the model, read from the real file system by the harness when the event is handled), '
- 'crossbeam channel (connected / disconnected)']}
+ 'crossbeam channel (connected / disconnected), Iterator::size_hint of filter_map / flat_map (send_multiple sends nothing exactly when there is no root)']}
 
-META = {'text': 'Theorems over a transcription of id_of_path / NotifyEventHandler::handle_event / path_of_entry whose decision tables (event kind -> {path, '
-         'parent}; component kind -> push/pop/skip/fail) are regenerated from src/hot_reloading/watcher.rs: id_of_path inverts path_of for every '
-         'valid non-root entry under every root (round trip, injectivity), `.` and `x/..` detours do not change the result, paths outside the root '
-         'or with a non-UTF-8 / dotted component yield nothing, the handler loses its watcher only through a failed send, membership '
-         'characterisation for several roots. Full-strength statements for the root directory and for the create/rename/delete table are stated and '
-         'REFUTED with kernel-checked witnesses (F-C12a/b/c reproduced on the real code by the oracle with replays); the `_partial` theorems give '
-         'the exact batch per kind and depth. Unbounded in depth, names, number of roots and events.',
+META = {'text': 'Theorems over a transcription of id_of_path / NotifyEventHandler::handle_event / path_of_entry whose decision tables (event kind -> '
+         '(parent named too, kind given by the notification); component kind -> push/pop/skip/fail) and statement shape (root check, kind source, '
+         'name part of directories / files, empty extension refused) are regenerated from src/hot_reloading/watcher.rs, the rest of the event loop '
+         'being compared literally: id_of_path inverts path_of for every valid entry under every root, the root directory included (round trip, '
+         'injectivity), `.` and `x/..` detours do not change the result, paths outside the root or with a non-UTF-8 / dotted component or last '
+         'name yield nothing, the handler loses its watcher only through a failed send, membership characterisation for several roots. FULL '
+         'STRENGTH, all proved: C12_root (the root is the directory ""), C12_table for create / modify / rename / delete at every depth (exactly '
+         'the entry with its kind and, except for modifications, its parent directory — "" for children of the root), C12_expressible (whatever is '
+         'named is the entry whose path_of is the notified path), C12_detour_events (a detour directly before the last component does not change '
+         'the events), plus the exact batch for every notify kind. Unbounded in depth, names, number of roots and events.',
  'design_ref': 'DESIGN.md section 6 C12',
- 'note': 'Trusted: Lean kernel; amx (table extraction); std::path::components(); notify; the OS file system (is_dir is a model parameter). Tie: '
-         'Gen/Watch.lean regenerated each run; the watch engine feeds the real handler (hook H1) synthetic notify events about real entries of a '
-         'temp dir and diffs events, id_of_path and FileSystem::path_of against the model; independent oracle from the statement; thorough tier adds '
-         'real inotify histories through the public FsWatcherBuilder.',
+ 'note': 'Trusted: Lean kernel; amx (table / shape extraction, literal comparison of the event loop); std::path::components(); notify; the OS file '
+         'system (is_dir is a model parameter). Tie: Gen/Watch.lean regenerated each run; the watch engine feeds the real handler (hook H1) '
+         'synthetic notify events about real entries of a temp dir and diffs events, id_of_path and FileSystem::path_of against the model; '
+         'independent oracle from the statement; thorough tier adds real inotify histories through the public FsWatcherBuilder. The five defects the '
+         'check reproduced on the unrepaired tree (F-C12a root-not-notified, F-C12b delete-entry-not-named, F-C12c rename-parent-not-named, F-C12d '
+         'unexpressible-path-named, F-C12e detour-parent-not-named) are repaired (known_findings.json: fixed); their witnesses stay in corpus/C12 '
+         'and pass; if one returns the table / shape theorems break and the oracle fails again.',
  'technique': 'Lean 4 proof over model with tables regenerated from source + differential correspondence'}
